@@ -53,12 +53,13 @@ type vfSide struct {
 	selEvents []string
 	inState   int32
 
-	controlling bool
-	gen         int
-	ufrag, pwd  string
+	controlling      bool
+	gen              int
+	ufrag, pwd       string
 	oldUfrag, oldPwd string // credentials of the generation ended by Restart
-	started     bool
-	restartedAt int // step of the last Restart (for the C04 Checking edge)
+	localCandsAll    []string
+	started          bool
+	restartedAt      int // step of the last Restart (for the C04 Checking edge)
 
 	// shadow state of the monitors
 	prevSel       string
@@ -279,12 +280,23 @@ func (x *vfSide) gather() error {
 		n := x.candNils
 		x.mu.Unlock()
 		if n > before {
-			return nil
+			x.rememberCands()
+
+			return x.awaitReaders()
 		}
 		if time.Now().After(deadline) {
 			return fmt.Errorf("%w: gathering did not complete", errVfQuiesce)
 		}
 		time.Sleep(20 * time.Microsecond)
+	}
+}
+
+// localCandsAll: marshalled form of every local candidate this side ever published (all generations).
+func (x *vfSide) rememberCands() {
+	x.mu.Lock()
+	defer x.mu.Unlock()
+	for _, c := range x.cands {
+		x.localCandsAll = append(x.localCandsAll, c.Marshal())
 	}
 }
 
@@ -308,8 +320,30 @@ func (x *vfSide) start(controlling bool, peerUfrag, peerPwd string) error {
 	}
 	x.started = true
 	x.tick, err = vfAwaitTicker(x.a)
+	if err != nil {
+		return err
+	}
 
-	return err
+	return x.awaitReaders()
+}
+
+// awaitReaders waits until the read loop of every open socket of this side is parked in
+// ReadFrom, so that a delivery cannot race with the start of the candidate's goroutine.
+func (x *vfSide) awaitReaders() error {
+	if !x.started {
+		return nil
+	}
+	deadline := time.Now().Add(20 * time.Second)
+	for _, c := range x.sess.sw.openSockets(x.name) {
+		for c.waiting.Load() == 0 && !c.isClosed() {
+			if time.Now().After(deadline) {
+				return fmt.Errorf("%w: read loop of %s never started", errVfQuiesce, c.local)
+			}
+			time.Sleep(5 * time.Microsecond)
+		}
+	}
+
+	return nil
 }
 
 // addRemote gives the agent a remote candidate inside one loop task (what
